@@ -64,6 +64,20 @@ func (h *HelloPingHandler) getActive(remote netip.Addr) *helloPingState {
 	return nil
 }
 
+// getPending returns the hello ping state for the given remote, if a hello
+// ping was sent and no response to it has been processed yet.
+func (h *HelloPingHandler) getPending(remote netip.Addr) *helloPingState {
+	h.activeLock.Lock()
+	defer h.activeLock.Unlock()
+
+	state := h.active[remote]
+	if state != nil && !state.done.Load() {
+		return state
+	}
+
+	return nil
+}
+
 func (h *HelloPingHandler) setActive(remote netip.Addr, helloState *helloPingState) {
 	h.activeLock.Lock()
 	defer h.activeLock.Unlock()
@@ -175,6 +189,22 @@ func (h *HelloPingHandler) handlePingHelloRequest(w *mgr.WorkerCtx, f frame.Fram
 		return fmt.Errorf("unmarshal request: %w", err)
 	}
 
+	// Resolve concurrent key setups.
+	// If both routers send a hello ping at the same time and both complete both
+	// exchanges, each ends up with the keys of its own exchange and they can no
+	// longer decrypt each other. Only let the exchange of the router with the
+	// lower address continue.
+	var abandoned *helloPingState
+	if pending := h.getPending(f.SrcIP()); pending != nil {
+		if h.r.instance.Identity().IP.Compare(f.SrcIP()) < 0 {
+			return errors.New("concurrent key setup: own hello ping takes precedence")
+		}
+		// Abandon own hello ping and continue with the one of the remote router.
+		if pending.done.CompareAndSwap(false, true) {
+			abandoned = pending
+		}
+	}
+
 	// Do key exchange.
 	session := h.r.instance.State().GetSession(f.SrcIP())
 	if session == nil {
@@ -183,6 +213,10 @@ func (h *HelloPingHandler) handlePingHelloRequest(w *mgr.WorkerCtx, f frame.Fram
 	kxKey, kxType, err := session.Encryption().InitKeyServer(request.KeyExchange, request.KeyExchangeType)
 	if err != nil {
 		return fmt.Errorf("server key exchange: %w", err)
+	}
+	if abandoned != nil {
+		// Keys are now set up by the remote router's exchange, notify waiters.
+		close(abandoned.notify)
 	}
 	if request.MTU > 0 {
 		session.SetTunMTU(request.MTU)
